@@ -22,7 +22,7 @@
 (* Defects (a set of strings) switches in the mutants used to show that the *)
 (* invariants bite: "delete_first", "le_expiry", "short_batch",             *)
 (* "ignore_scheduled", "finished_is_done" (an instance with a /finished       *)
-(* record is taken to be unscheduled), "prune_newest".                       *)
+(* record is taken to be unscheduled), "prune_newest", "prune_negative_slice". *)
 EXTENDS ArchiveOps, TLC
 
 CONSTANTS
@@ -146,11 +146,20 @@ Crash ==
   /\ st.pc \notin {"idle", "setup"} /\ st.ncrash < MaxCrash
   /\ st' = [Reset(st) EXCEPT !.ncrash = @ + 1]
 
+(* _zk.cleanup(path, m): exactly the max(0, len - m) OLDEST snapshots go; with  *)
+(* len <= m nothing is touched.  Mutant "prune_negative_slice": the guard is     *)
+(* folded into nodes[:len - m], whose negative bound (len < m < 2*len) slices    *)
+(* from the end and removes the 2*len - m oldest.                                *)
+PruneExtra(n, m) ==
+  IF n > m THEN n - m
+  ELSE IF "prune_negative_slice" \in Defects /\ n < m /\ 2 * n > m THEN 2 * n - m
+  ELSE 0
+
 PruneStart(m) ==
   /\ st.pc = "idle" /\ m \in Maxes /\ st.nprunes < MaxPrunes
-  /\ Cardinality(st.snaps) > m
+  /\ PruneExtra(Cardinality(st.snaps), m) > 0
   /\ LET seqs == Seqs(st.snaps)
-         extra == Cardinality(seqs) - m
+         extra == PruneExtra(Cardinality(seqs), m)
          victims == IF "prune_newest" \in Defects
                     THEN BottomSeq(TopN(seqs, extra), extra)
                     ELSE BottomSeq(seqs, extra)
